@@ -77,6 +77,10 @@ class CallMixin(object):
             cands = self.methods_named(name, v.cls) if v.cls else self.methods_named(name)
             if v.cls and "INFINITY" in v.cls and not cands:
                 cands = self.methods_named(name, {"Point"})
+            if not cands and v.cls and not any((k, mname) in self.field_types_by_cls for k in v.cls):
+                # not a method and not a known data field of the presumed classes: the class
+                # hint may be incomplete, fall back to CHA over all classes
+                cands = self.methods_named(name)
             if cands:
                 return [(VBound(v, cands if len(cands) > 1 else cands[0]), st)]
             if name in PRIM_METHODS and not name.startswith("_"):
@@ -110,7 +114,14 @@ class CallMixin(object):
             r = inv(self, st, v)
             if r is not None:
                 return r
-        cls = self.field_types.get(mname)
+        cls = None
+        if v.cls:
+            acc = set()
+            for k in v.cls:
+                acc |= set(self.field_types_by_cls.get((k, mname), ()))
+            cls = frozenset(acc) if acc else None
+        if cls is None:
+            cls = self.field_types.get(mname)
         nullable = any((k, mname) in self.nullable_fields for k in (v.cls or ())) if v.cls else False
         kind = self.field_kinds.get(mname) if hasattr(self, "field_kinds") else None
         return VSym(("attr", v.t, mname), cls=cls, nullable=nullable, kind=kind)
